@@ -610,8 +610,9 @@ def rule_load_semantics(check: Check, rule: str = "RL-sem") -> None:
                     else:
                         if not (ant.fields["loaded"] is False and con.fields["loaded"] is False):
                             bad = bad or f"{what}: after Rule.unload a part of the rule is still loaded"
-                    if log[:1] != [("deactivate",)] and ("deactivate",) not in log:
-                        bad = bad or f"{what}: Rule.{meth} does not deactivate the rule (its degree and triggered flag belong to the tree that is replaced)"
+                    if log[:1] != [("deactivate",)]:
+                        bad = bad or (f"{what}: Rule.{meth} does not start by deactivating the rule (its degree and triggered flag belong to the tree that is replaced)"
+                                      if ("deactivate",) in log else f"{what}: Rule.{meth} does not deactivate the rule (its degree and triggered flag belong to the tree that is replaced)")
         except Unknown as u:
             raise AnalysisError(str(u)) from None
         check.require(bad is None, rule, f"Rule.{meth}/both-parts", (f"Rule.{meth} deactivates the rule and {'loads' if meth == 'load' else 'unloads'} antecedent and consequent "
